@@ -59,6 +59,87 @@ def assets(name):
     raise ValueError(name)
 
 
+COST_ASSETS = ["contract", "contract_spread", "take", "storage", "storage_sep", "transport", "transport_costs", "ext_transport", "multicommodity",
+               "plant", "chp_fuel", "chp_min_load", "orderbook", "scaled", "structured", "periodic", "coarse"]
+
+
+def cost_asset(kind, win, T):
+    g = Grid.from_json(grid_json(T))
+    W = {"none": (None, None), "late": (("gp", 1), None), "early": (None, ("gp", T - 1)), "single": (("gp", 1), ("gp", 2)),
+         "before": (("before", 3), ("before", 1)), "after": (("after", 1), ("after", 3))}[win]
+    s_, e_ = S.resolve_window(g, W) if W != (None, None) else (None, None)
+    take = dict(start=["2021-01-01T00:00"], end=["2021-01-03T00:00"], values=[20.0])
+    a = {"contract": dict(type="SimpleContract", name="x", nodes=["n1"], price="p", min_cap=-5.0, max_cap=5.0),
+         "contract_spread": dict(type="SimpleContract", name="x", nodes=["n1"], price="p", min_cap=-5.0, max_cap=5.0, extra_costs=0.2),
+         "take": dict(type="Contract", name="x", nodes=["n1"], price="q", min_cap=0.0, max_cap=2.0, min_take=take),
+         "storage": dict(type="Storage", name="x", nodes=["n1"], size=20.0, cap_in=1.0, cap_out=1.0, start_level=5.0, end_level=5.0, cost_store=0.01),
+         "storage_sep": dict(type="Storage", name="x", nodes=["n1"], size=20.0, cap_in=1.0, cap_out=1.0, eff_in=0.9, cost_in=0.1, cost_out=0.2, price="q"),
+         "transport": dict(type="Transport", name="x", nodes=["n1", "n2"], min_cap=0.0, max_cap=3.0, efficiency=0.9),
+         "transport_costs": dict(type="Transport", name="x", nodes=["n1", "n2"], min_cap=0.0, max_cap=3.0, costs_time_series="ec", costs_const=0.1),
+         "ext_transport": dict(type="ExtendedTransport", name="x", nodes=["n1", "n2"], min_cap=0.0, max_cap=3.0, costs_const=0.1, max_take=take),
+         "multicommodity": dict(type="MultiCommodityContract", name="x", nodes=["n1", "n2"], price="q", min_cap=0.0, max_cap=3.0, factors_commodities=[1.0, 0.5]),
+         "plant": dict(type="Plant", name="x", nodes=["n1"], price="q", min_cap=1.0, max_cap=4.0, start_costs=2.0, running_costs=0.5, min_runtime=12.0),
+         "chp_fuel": dict(type="CHPAsset", name="x", nodes=["n1", "nh", "nf"], min_cap=1.0, max_cap=4.0, start_costs=2.0, fuel_efficiency=0.5, start_fuel=1.0),
+         "chp_min_load": dict(type="CHPAsset_with_min_load_costs", name="x", nodes=["n1", "nh"], price="q", min_cap=1.0, max_cap=4.0, min_load_threshhold=2.0, min_load_costs=0.3),
+         "orderbook": dict(type="OrderBook", name="x", nodes=["n1"], orders=dict(start=["2021-01-01T06:00", "2020-12-01T00:00"], end=["2021-01-01T18:00", "2020-12-02T00:00"],
+                                                                               capa=[2.0, -1.5], price=[2.5, 4.0])),
+         "scaled": dict(type="ScaledAsset", name="x", min_scale=0.0, max_scale=2.0, norm_scale=1.0, fix_costs=0.1,
+                        base_asset=dict(type="SimpleContract", name="b", nodes=["n1"], price="p", min_cap=-5.0, max_cap=5.0, extra_costs=0.2)),
+         "structured": dict(type="StructuredAsset", name="x", nodes=["n1"],
+                            portfolio=[dict(type="Storage", name="isto", nodes=["ni"], size=20.0, cap_in=1.0, cap_out=1.0, price="q", cost_in=0.1),
+                                       dict(type="Transport", name="itr", nodes=["ni", "n1"], min_cap=0.0, max_cap=2.0, costs_const=0.05)]),
+         "periodic": dict(type="SimpleContract", name="x", nodes=["n1"], price="q", min_cap=-2.0, max_cap=3.0, periodicity="12h"),
+         "coarse": dict(type="SimpleContract", name="x", nodes=["n1"], price="q", min_cap=-2.0, max_cap=3.0, extra_costs=0.1, freq="12h")}[kind]
+    tgt = a["base_asset"] if kind == "scaled" else a
+    if kind == "orderbook":   # (an order book has no life time of its own: the orders carry the dates)
+        return a
+    if s_:
+        tgt["start"] = s_
+    if e_:
+        tgt["end"] = e_
+    return a
+
+
+def run_cost_asset(case):
+    """costs_only must return exactly the cost vector of the full problem of the same asset"""
+    from mc import impl
+    res = dict(status="ok", violations=[], counters={})
+    V = res["violations"]
+    T = case["T"]
+    tags = ["cost_asset:" + case["cost_asset"], "window:" + case["window"]]
+    scn = dict(grid=grid_json(T), prices={}, assets=[cost_asset(case["cost_asset"], case["window"], T)])
+    P = prices_for(T, 1, 1)
+    try:
+        pf1, tg1, _ = impl.build(scn)
+        full = pf1.assets[0].setup_optim_problem(P, tg1)
+    except Exception as e:
+        res.update(status="skip", validated=False, outcome="full_raises")   # (the full problem is the business of other properties)
+        res["counters"]["full_raises@" + exc_site()] = 1
+        return res
+    try:
+        pf2, tg2, _ = impl.build(scn)
+        alone = pf2.assets[0].setup_optim_problem(P, tg2, costs_only=True)
+        pf3, tg3, _ = impl.build(scn)
+        viapf = pf3.setup_optim_problem(P, tg3, costs_only=True)
+    except Exception as e:
+        V.append(viol("c17.cost_samples", "costs_only raises %s at %s; the full problem of the same asset is built" % (short_exc(e), exc_site()), tags, ["cost_asset:" + case["cost_asset"], "raises"]))
+        return res
+    want = np.asarray(full.c, float)
+    for label, got in (("asset", alone), ("portfolio", viapf)):
+        if label == "asset" and case["cost_asset"] == "periodic":
+            continue   # (merging of periodic variables happens at portfolio level)
+        ok = isinstance(got, np.ndarray) and got.dtype != object and len(got) == len(want) and (len(want) == 0 or np.abs(np.asarray(got, float) - want).max() <= 1e-9)
+        if not ok:
+            V.append(viol("c17.cost_samples", "costs_only through the %s returns %s, the full problem has costs %s"
+                          % (label, (np.round(got, 6).tolist() if isinstance(got, np.ndarray) and got.dtype != object else type(got).__name__), np.round(want, 6).tolist()),
+                          tags, ["cost_asset:" + case["cost_asset"], label]))
+            break
+    res["outcome"] = "costs:%d" % len(want)
+    res["fingerprint"] = chash(np.round(want, 9).tolist())
+    res["nontrivial"] = bool(len(want) > 0)
+    return res
+
+
 def grid_json(T):
     return dict(start="2021-01-01T00:00", end="2021-01-02T00:00" if T == 4 else "2021-01-02T12:00", freq="6h", mtu="h", tz=None)
 
@@ -76,6 +157,13 @@ def build_cases(tier):
                         c = dict(pf=pf, T=T, boundary=bd, futures=list(ms))
                         c["key"] = chash(c)
                         cases.append(c)
+    # cost vectors alone (the path price samples take) for every asset class x life time placement
+    for kind in COST_ASSETS:
+        for win in ("none", "late", "early", "single", "before", "after"):
+            for T in Ts:
+                c = dict(cost_asset=kind, window=win, T=T)
+                c["key"] = chash(c)
+                cases.append(c)
     stats = dict(explorer="E3 product", states=len(cases), transitions=len(cases) * 4,
                  bound=dict(T=Ts, scenario_multisets="all of size 1..3 over 5 patterns", portfolios=len(PORTFOLIOS)))
     return cases, stats
@@ -103,6 +191,8 @@ def run_case(case):
     from mc import impl
     import eaopack as eao
     from copy import deepcopy
+    if "cost_asset" in case:
+        return run_cost_asset(case)
     res = dict(status="ok", violations=[], counters={})
     V = res["violations"]
     T, bd = case["T"], case["boundary"]
